@@ -280,6 +280,9 @@ func (f *dirFS) OpenFile(name string, flag int, perm fs.FileMode) (File, error) 
 		file File
 		err  error
 	)
+	if _, err := f.sanitizePath(name); err != nil {
+		return nil, err
+	}
 	if flag&os.O_CREATE == os.O_CREATE {
 		file, err = f.overrides.OpenFile(name, flag, perm)
 		if err != nil {
@@ -315,6 +318,9 @@ func (f *dirFS) Stat(name string) (fs.FileInfo, error) {
 		fi  fs.FileInfo
 		err error
 	)
+	if _, err := f.sanitizePath(name); err != nil {
+		return nil, err
+	}
 	mi, err := f.overrides.Stat(name)
 	if err != nil {
 		return nil, err
@@ -343,6 +349,9 @@ func (f *dirFS) Create(name string) (File, error) {
 		file File
 		err  error
 	)
+	if _, err := f.sanitizePath(name); err != nil {
+		return nil, err
+	}
 	file, err = f.overrides.Create(name)
 	if err != nil {
 		return nil, err
@@ -361,6 +370,9 @@ func (f *dirFS) Create(name string) (File, error) {
 }
 
 func (f *dirFS) Remove(name string) error {
+	if _, err := f.sanitizePath(name); err != nil {
+		return err
+	}
 	if err := f.overrides.Remove(name); err != nil {
 		return err
 	}
@@ -376,6 +388,9 @@ func (f *dirFS) ReadDir(name string) ([]fs.DirEntry, error) {
 		onDisk, inMem []fs.DirEntry
 		err           error
 	)
+	if _, err := f.sanitizePath(name); err != nil {
+		return nil, err
+	}
 	if f.caseSensitiveOnDisk(name) {
 		onDisk, err = os.ReadDir(filepath.Join(f.base, name))
 		if err != nil {
@@ -414,6 +429,9 @@ func (f *dirFS) ReadDir(name string) ([]fs.DirEntry, error) {
 	return dirEntries, nil
 }
 func (f *dirFS) ReadFile(name string) ([]byte, error) {
+	if _, err := f.sanitizePath(name); err != nil {
+		return nil, err
+	}
 	if f.caseSensitiveOnDisk(name) {
 		return os.ReadFile(filepath.Join(f.base, name))
 	}
@@ -423,6 +441,9 @@ func (f *dirFS) WriteFile(name string, b []byte, mode fs.FileMode) error {
 	var (
 		memContent []byte
 	)
+	if _, err := f.sanitizePath(name); err != nil {
+		return err
+	}
 	if f.createOnDisk(name) {
 		if err := os.WriteFile(filepath.Join(f.base, name), b, mode); err != nil {
 			return err
@@ -438,6 +459,9 @@ func (f *dirFS) WriteFile(name string, b []byte, mode fs.FileMode) error {
 }
 
 func (f *dirFS) Readnod(name string) (dev int, err error) {
+	if _, err := f.sanitizePath(name); err != nil {
+		return 0, err
+	}
 	if f.caseSensitiveOnDisk(name) {
 		_, err = os.Stat(filepath.Join(f.base, name))
 		if err != nil {
@@ -448,6 +472,9 @@ func (f *dirFS) Readnod(name string) (dev int, err error) {
 }
 
 func (f *dirFS) Link(oldname, newname string) error {
+	if _, err := f.sanitizePath(newname); err != nil {
+		return err
+	}
 	// for hardlink, we cannot take target as is, as it might be outside of the base.
 	// So we must sanitize it. It should point to a file that is within the filesystem.
 	target := filepath.Join(f.base, oldname)
@@ -464,6 +491,9 @@ func (f *dirFS) Link(oldname, newname string) error {
 }
 
 func (f *dirFS) Symlink(oldname, newname string) error {
+	if _, err := f.sanitizePath(newname); err != nil {
+		return err
+	}
 	// For symlink, take target as is.
 	// If it is outside of the base, it will be resolved by Readlink.
 	// This enables proper symlink behaviour.
@@ -476,6 +506,9 @@ func (f *dirFS) Symlink(oldname, newname string) error {
 }
 
 func (f *dirFS) MkdirAll(name string, perm fs.FileMode) error {
+	if _, err := f.sanitizePath(name); err != nil {
+		return err
+	}
 	// just in case, because some underlying systems miss this
 	fullPerm := os.ModeDir | perm
 	if f.createOnDisk(name) {
@@ -487,6 +520,9 @@ func (f *dirFS) MkdirAll(name string, perm fs.FileMode) error {
 }
 
 func (f *dirFS) Mkdir(name string, perm fs.FileMode) error {
+	if _, err := f.sanitizePath(name); err != nil {
+		return err
+	}
 	// just in case, because some underlying systems miss this
 	fullPerm := os.ModeDir | perm
 	if f.createOnDisk(name) {
@@ -498,6 +534,9 @@ func (f *dirFS) Mkdir(name string, perm fs.FileMode) error {
 }
 
 func (f *dirFS) Chmod(path string, perm fs.FileMode) error {
+	if _, err := f.sanitizePath(path); err != nil {
+		return err
+	}
 	if f.caseSensitiveOnDisk(path) {
 		// ignore error, as we track it in memory anyways, and disk filesystem might not support it
 		_ = os.Chmod(filepath.Join(f.base, path), perm)
@@ -506,6 +545,9 @@ func (f *dirFS) Chmod(path string, perm fs.FileMode) error {
 }
 
 func (f *dirFS) Chown(path string, uid, gid int) error {
+	if _, err := f.sanitizePath(path); err != nil {
+		return err
+	}
 	if f.caseSensitiveOnDisk(path) {
 		// ignore error, as we track it in memory anyways, and disk filesystem might not support it
 		_ = os.Chown(filepath.Join(f.base, path), uid, gid)
@@ -514,6 +556,9 @@ func (f *dirFS) Chown(path string, uid, gid int) error {
 }
 
 func (f *dirFS) Chtimes(path string, atime time.Time, mtime time.Time) error {
+	if _, err := f.sanitizePath(path); err != nil {
+		return err
+	}
 	if err := os.Chtimes(filepath.Join(f.base, path), atime, mtime); err != nil {
 		return fmt.Errorf("unable to change times: %w", err)
 	}
@@ -521,6 +566,9 @@ func (f *dirFS) Chtimes(path string, atime time.Time, mtime time.Time) error {
 }
 
 func (f *dirFS) Mknod(name string, mode uint32, dev int) error {
+	if _, err := f.sanitizePath(name); err != nil {
+		return err
+	}
 	if f.caseSensitiveOnDisk(name) {
 		err := unix.Mknod(filepath.Join(f.base, name), mode, dev)
 		// what if we could not create it? Just create a regular file there, and memory will override
